@@ -258,6 +258,8 @@ pub struct Scenario {
     pub dropper: Option<Dropper>,
     /// first transaction sequence number of every daemon (None = 2-byte 1)
     pub seq_start: Option<Vec<VariableID>>,
+    /// transaction ids known in advance (transfers played by a scripted sender): lets user primitives address them
+    pub preset_ids: Vec<(usize, TransactionID)>,
 }
 
 /// A configuration that differs from `c` in every observable respect. The daemons are given the real
@@ -1146,6 +1148,11 @@ pub fn run(mut sc: Scenario, scratch: &str) -> RunLog {
             });
         }
         let ids = Arc::new(Mutex::new(vec![None; sc.transfers.len()]));
+        for (tr, id) in &sc.preset_ids {
+            if let Some(slot) = ids.lock().unwrap().get_mut(*tr) {
+                *slot = Some(*id);
+            }
+        }
         let mut s = Sched {
             shared: shared.clone(),
             queue: BinaryHeap::new(),
